@@ -354,6 +354,15 @@ func (c *opsCase) readBattery(roots []*node) {
 		}
 		c.expectLast("[" + strings.Join(parts, ",") + "]")
 	}
+	if out := c.emit("pjforeach p"); strings.HasPrefix(out, "ok") {
+		for k, rt := range roots {
+			if k >= 2 || rt == nil {
+				break
+			}
+			c.emit(fmt.Sprintf("copyiter cbm cb%d", k))
+			c.checkValueText(c.emit("marshal cbm"), rt)
+		}
+	}
 	c.emit("iter i1 p")
 	ms := c.emit("marshal i1")
 	if ms != "err" && ms != "panic" && ms != "hang" {
@@ -438,6 +447,7 @@ containers:
 					cbs = append(cbs, fmt.Sprintf("%s:%d:%d", hx(n.keys[i]), cbTag(ch), ch.off+1))
 				}
 				c.expectLast("ok " + strings.Join(cbs, ","))
+				c.marshalCallbacks(n)
 			}
 			if len(n.keys) > 0 && uniqueKeys(n.keys) {
 				filter := map[string]bool{}
@@ -500,6 +510,7 @@ containers:
 				}
 				c.expectLast("ok " + strings.Join(cbs, ","))
 			}
+			c.marshalCallbacks(n)
 			c.emit("firsttype a")
 			if len(n.children) > 0 {
 				c.expectLast(strconv.Itoa(typeOfKind(n.children[0].kind)))
@@ -542,6 +553,45 @@ func allContainers(roots []*node) bool {
 		}
 	}
 	return true
+}
+
+// marshalCallbacks marshals iterators handed to the last ForEach's callbacks: each must render its own value.
+func (c *opsCase) marshalCallbacks(n *node) {
+	for k, ch := range n.children {
+		if k >= 3 {
+			break
+		}
+		c.emit(fmt.Sprintf("copyiter cbm cb%d", k))
+		ms := c.emit("marshal cbm")
+		c.checkValueText(ms, ch)
+	}
+}
+
+// checkValueText: ms (hex reply of a marshal op just emitted) must be valid JSON denoting node ch.
+func (c *opsCase) checkValueText(ms string, ch *node) {
+	if ms == "err" || ms == "panic" || ms == "hang" {
+		c.expectLast("<marshal of an inner iterator succeeds>")
+		return
+	}
+	txt := unhx(ms)
+	if !json.Valid(txt) {
+		c.expectLast("<valid JSON>")
+		return
+	}
+	wrapped := append(append([]byte{'['}, txt...), ']')
+	pj, err := simdjson.Parse(wrapped, nil)
+	if err != nil {
+		c.expectLast("<valid JSON accepted by Parse when wrapped in an array>")
+		return
+	}
+	ow, _ := owalk(pj)
+	var nb strings.Builder
+	nb.WriteString("[[")
+	ch.ord(&nb)
+	nb.WriteString("]]")
+	if !docNumEq(nb.String(), ow) {
+		c.expectLast("<text denoting " + nb.String() + ">")
+	}
 }
 
 func uniqueKeys(ks [][]byte) bool {
@@ -722,11 +772,22 @@ func exactNum(tok string) string {
 	return tok
 }
 
+// corpusOps: minimised past findings, run first on every invocation.
+func corpusOps(rn *runner) {
+	// D8: a float -0 marshals as "-0", which re-parses as the integer 0 and marshals as "0"
+	tc := &testCase{note: "negzero-fixed-point", ops: []string{
+		"parse p 0 1 " + hx([]byte("[-0.0]")), "iter i p", "marshal i",
+		"parse q 0 1 " + hx([]byte("[-0]")), "iter j q", "marshal j"}}
+	tc.expect = map[int]string{2: hx([]byte("[-0]")), 5: hx([]byte("[-0]"))}
+	rn.add(tc)
+}
+
 func suiteOps(rn *runner, r *rng, tier string) {
 	n := 1500
 	if tier == "thorough" {
 		n = 40000
 	}
+	corpusOps(rn)
 	for i := 0; i < n; i++ {
 		cr := r.fork()
 		cfg := defaultCfg(cr)
